@@ -45,6 +45,7 @@ func fixture() string {
 var wrapperText = map[string]string{
 	"log":        "log / {DIR}/access.log \"{method} {uri} {status} {size}\"",
 	"gzip":       "gzip {\n\t\text *\n\t}",
+	"gzipmin":    "gzip {\n\t\text *\n\t\tmin_length 256\n\t}",
 	"header":     "header / X-Wrap yes",
 	"errors":     "errors {DIR}/errors.log",
 	"errors404":  "errors {DIR}/errors.log {\n\t\t404 {DIR}/err404.html\n\t}",
@@ -360,6 +361,10 @@ func genReq(t *rapid.T, lb string) Req {
 		if rapid.IntRange(0, 3).Draw(t, lb+"werr") == 0 {
 			s.Err = "scripted error after writing"
 		}
+		if rapid.IntRange(0, 7).Draw(t, lb+"pce") == 0 && s.Status != 204 && s.Status != 304 {
+			// a response that is already encoded: compression must step aside
+			s.Header["Content-Encoding"] = []string{rapid.SampledFrom([]string{"br", "x-custom"}).Draw(t, lb+"pcev")}
+		}
 	case k < 16:
 		r.Kind = "abuse"
 		s.Status = 200
@@ -368,12 +373,14 @@ func genReq(t *rapid.T, lb string) Req {
 	case k < 18:
 		r.Kind = "panic-before"
 		s.Panic = "before"
+		s.PanicWith = rapid.SampledFrom([]string{"", "", "error", "runtime", "abort"}).Draw(t, lb+"pw")
 	case k < 19:
 		r.Kind = "panic-after"
 		s.Status = 200
 		s.Chunks = [][]byte{[]byte("written before the panic")}
 		s.Flush = []bool{rapid.Bool().Draw(t, lb+"pf")}
 		s.Panic = "after"
+		s.PanicWith = rapid.SampledFrom([]string{"", "", "error", "runtime", "abort"}).Draw(t, lb+"pw")
 	case k == 19 && rapid.Bool().Draw(t, lb+"tpl"):
 		// a body with template actions: executed if 'templates' wraps the path, literal otherwise
 		r.Kind = "template"
@@ -397,13 +404,19 @@ func genCase(t *rapid.T) *Case {
 	c := &Case{}
 	picked := rapid.SliceOfNDistinct(rapid.SampledFrom(wrapperNames), 1, 8, func(s string) string { return s }).Draw(t, "wrappers")
 	// at most one errors variant
-	seenErr := false
+	seenErr, seenGz := false, false
 	for _, w := range picked {
 		if strings.HasPrefix(w, "errors") {
 			if seenErr {
 				continue
 			}
 			seenErr = true
+		}
+		if strings.HasPrefix(w, "gzip") {
+			if seenGz {
+				continue
+			}
+			seenGz = true
 		}
 		c.Wrappers = append(c.Wrappers, w)
 	}
